@@ -821,7 +821,14 @@ func (c *cstream) exec(actor string, ops []Op) {
 			simrt.Yield(simrt.ClassApp)
 			evInvoke(p.ID, actor, OpHeader, 0, 0)
 			md, err := c.cs.Header()
-			evReturn(p.ID, actor, OpHeader, 0, &OpResult{Err: err, MD: copyMD(md), Extra: map[string]any{"hdr_target": copyMD(p.Res.HdrTarget)}})
+			res := &OpResult{Err: err, MD: copyMD(md)}
+			if err == nil {
+				// Header() returning the headers is the completion signal for
+				// the grpc.Header target; after a failed Header() (context
+				// ended) a late headers frame may still be written to it
+				res.Extra = map[string]any{"hdr_target": copyMD(p.Res.HdrTarget)}
+			}
+			evReturn(p.ID, actor, OpHeader, 0, res)
 		case OpTrailer:
 			simrt.Yield(simrt.ClassApp)
 			evInvoke(p.ID, actor, OpTrailer, 0, 0)
